@@ -10,7 +10,7 @@ from geolib import Gen, Obj, call_impl
 from proto import ET, dec_tens, proj_close, proj_close_nn, run_driver
 
 ID = "C10"
-LEAN_FILES = ["Geo/Props/C10.lean", "Geo/Props/C10b.lean", "Geo/Props/C10c.lean"]
+LEAN_FILES = ["Geo/Props/C10.lean", "Geo/Props/C10b.lean", "Geo/Props/C10c.lean", "Geo/Props/C10d.lean"]
 RULE = ("2-D lines (vertical, horizontal, through the origin, b=0, c=0, generic) and 3-D planes / lines x points on and off: project and "
         "mirror compared with the exact Cartesian foot / mirror image (S-layer), perpendicular / parallel checked for incidence with the "
         "point and for the Cartesian direction; involution and midpoint; predicates is_perpendicular / is_parallel / is_cocircular / "
@@ -641,7 +641,44 @@ def perpendicular_in_plane_stream(ctx, n, prefix="C10"):
                 break
 
 
+def bisector_model_stream(ctx, n):
+    """the two directions a I +- b J of Geo/Constructions.lean (about which T10_angle_bisectors is) against the directions of the lines
+    that angle_bisectors returns; the lines have directions z^2, w^2 for Gaussian integers z, w, so that the square roots the code
+    takes are the Gaussian numbers b = z w, a = conj(z w) up to sign (a sign flip only swaps the two bisectors)"""
+    import geometer as g
+    rng = ctx.rng
+    reqs, todo = [], []
+    for k in range(n):
+        z = complex(rng.randint(-3, 3), rng.randint(-3, 3))
+        w = complex(rng.randint(-3, 3), rng.randint(-3, 3))
+        if z == 0 or w == 0:
+            continue
+        zl, zm = z * z, w * w
+        if abs(zl.real * zm.imag - zl.imag * zm.real) < 0.5:
+            continue                                     # the same (or opposite) direction: not two lines through one vertex
+        o = (float(rng.randint(-3, 3)), float(rng.randint(-3, 3)))
+        l = g.Line(g.Point(*o), g.Point(o[0] + zl.real, o[1] + zl.imag))
+        m = g.Line(g.Point(*o), g.Point(o[0] + zm.real, o[1] + zm.imag))
+        b = z * w
+        a = b.conjugate()
+        tok = lambda c: f"{int(c.real)}_{int(c.imag)}"
+        reqs.append(f"m.bisectordirs {tok(a)} {tok(b)}")
+        todo.append((l, m, f"angle_bisectors of the lines through {o} with directions z^2, w^2 for z={z}, w={w}"))
+    for (l, m, desc), ans in zip(todo, run_driver(reqs)):
+        ctx.case(desc)
+        ctx.count("model:bisectordirs")
+        r = call_impl(lambda: [np.asarray(x.meet(g.infty).array) for x in g.angle_bisectors(l, m)])
+        a = ans.split(" ")
+        ok = a[0] == "ok" and r[0] == "ok" and len(r[1]) == 2
+        if ok:
+            ent = dec_tens(a[1]).cnumpy().reshape(2, 3)
+            ok = all(any(proj_close_nn(e, x, 1e-7) for x in r[1]) for e in ent) and not proj_close_nn(r[1][0], r[1][1], 1e-7)
+        if not ok:
+            ctx.disagree("C10:model:bisectordirs", desc, ans[:200], r[1:3] if r[0] != "ok" else [np.round(x, 6).tolist() for x in r[1]], replay=[desc])
+
+
 def correspondence(ctx):
+    bisector_model_stream(ctx, ctx.budget(60, 600))
     perpendicular_in_plane_stream(ctx, ctx.budget(30, 300))
     constructions_model_stream(ctx, ctx.budget(120, 1500))
     import colllib
